@@ -375,13 +375,19 @@ func (s *pState) flush(cw *cwriter.Writer, height int, iter <-chan *Bar) error {
 	// heap manager is ready to receive again, so that a push is never
 	// overtaken by a later request.
 	var pushBack []pushData
+	var err error
 
 	for b := range iter {
 		frame := <-b.frameCh
+		if err != nil {
+			// keep receiving: the other bars of this cycle must be able to
+			// finish their render, width synchronization included
+			continue
+		}
 		if frame.err != nil {
-			close(s.iterDrop)
 			b.cancel()
-			return frame.err // b.frameCh is buffered it's ok to return here
+			err = frame.err
+			continue
 		}
 		var usedRows int
 		for i := len(frame.rows) - 1; i >= 0; i-- {
@@ -418,6 +424,10 @@ func (s *pState) flush(cw *cwriter.Writer, height int, iter <-chan *Bar) error {
 		default:
 			pushBack = append(pushBack, pushData{b, false})
 		}
+	}
+
+	if err != nil {
+		return err
 	}
 
 	for _, data := range pushBack {
